@@ -197,6 +197,32 @@ def run(prog, rep, tier='quick'):
                     rep.violation('wk', g.qname, ctx, '; '.join(bad), gw)
                 else:
                     rep.proved('wk', g.qname, ctx, 'window 2*lag+1 -> W[lag+1:]; NFFT-point transform; real part; lag/norm forwarded', gw)
+    # default transform length: with NFFT=None the periodogram has one point per *time sample* (N), also for column-wise 2-D input
+    n_def = 0
+    for cplx in (False, True):
+        for two_d in (False, True):
+            x = C.data(cplx, phase=False)
+            if two_d:
+                x.shape = (C.N_SYM, Aff.sym('Cc'))
+            v, itp = C.run_function(prog, 'periodogram', 'speriodogram', [x],
+                                    {'NFFT': Const(None), 'detrend': Const(False), 'scale_by_freq': Const(False), 'sampling': C.sampling(),
+                                     'window': StrV('window')})
+            ctx = '%s,%s,NFFT=None' % ('complex' if cplx else 'real', '2-D' if two_d else '1-D')
+            n_def += 1
+            if blocked(rep, 'fft', f.qname, ctx, itp):
+                continue
+            ff = [e for e in itp.events if e[0] == 'fft']
+            if len(ff) != 1:
+                rep.undecided('fft', f.qname, ctx, 'expected one transform, saw %d' % len(ff), where)
+                continue
+            nlen = ff[0][4]
+            la = _int_aff(nlen) if nlen is not None and not (isinstance(nlen, Const) and nlen.v is None) else C.N_SYM
+            if la is not None and la == C.N_SYM:
+                rep.proved('fft', f.qname, ctx, 'default transform length = number of time samples', where)
+            else:
+                rep.violation('fft', f.qname, ctx, 'with NFFT=None the transform length is %s, not the number of time samples N: the columns '
+                              'are truncated or zero-padded to the number of channels' % la, where)
+    rep.floor('default-length contexts', n_def, 4)
     rep.floor('dim contexts', n_dim, 24)
     rep.floor('forwarding contexts', n_fwd, 4)
     rep.floor('correlogram contexts', n_wk, 8)
